@@ -68,6 +68,9 @@ func execExtract(ts []string) string {
 	seed := atoi(ts[4])
 	fields := parseFields(ts[5])
 	reqs, err := buildRequests(target, fields)
+	if err == errBuilderChanged {
+		return err.Error()
+	}
 	if err != nil {
 		return errStr(err)
 	}
